@@ -7,7 +7,7 @@ H = {"H1", "H2", "H3", "H4", "H5", "PANIC"}
 
 def pm(v):
     d = {"rule": v["rule"]}
-    if v["rule"] in ("H3", "Q2", "H4") and v["p"]:
+    if v["rule"] in ("H2", "H3", "Q1", "Q2", "H4") and v["p"]:
         d["why"] = v["p"][-1] if v["rule"] != "H4" else v["p"][0]
     return d
 
